@@ -533,6 +533,9 @@ class AsyncClient(base_client.BaseClient):
             r = await self._send_request(
                 'GET', self.base_url + self._get_url_timestamp(),
                 timeout=max(self.ping_interval, self.ping_timeout) + 5)
+            if self.state != 'connected':
+                # disconnected while the request was in progress
+                break
             if r is None or isinstance(r, str):
                 self.logger.warning(
                     r or 'Connection refused by the server, aborting')
@@ -600,6 +603,9 @@ class AsyncClient(base_client.BaseClient):
                     'Unexpected error receiving packet: "%s", aborting',
                     str(e))
                 await self.queue.put(None)
+                break
+            if self.state != 'connected':
+                # disconnected while waiting for this packet
                 break
             try:
                 pkt = packet.Packet(encoded_packet=p)
